@@ -160,6 +160,8 @@ def run(ctx):
     if res["violated"] != "NoBoxLost":
         raise vlib.MachineryError("RTree spec self-test: strict quadrant comparisons were not refuted (vacuous NoBoxLost?)")
     ctx.stages[-1]["note"] = "expected: TLC refutes NoBoxLost for strict comparisons (counterexample: one zero-width box)"
+    if tier == "thorough":
+        ctx.run_tlc("e1_liveness", "RTree", "RTree_live.cfg")          # construction terminates: the work list empties on every instance
     # E1 + dump
     dump = os.path.join(ctx.workdir, "e1", "states")
     cfgs = ["RTree_quick.cfg"] + (["RTree_thorough.cfg"] if tier == "thorough" else [])
